@@ -64,9 +64,15 @@ ASSUMPTIONS = {
          'decisions compared when the margin exceeds 2^-12); the C02 oracle then reads "up to rounding" as 2^-13 (1024 ulp32) on scales that include the '
          'conditioning of the transform and the distance from the origin'],
  'C03': ['[pquadric] root-selection theorems hold for zero-width error boxes on the reals; "clearly" (the 1e-6 margins) is the float/real gap, sampled by the oracle',
-         '[pquadric] guard of the theorems: direction not zero (sphere) / not parallel to the axis (cylinder), and the ray does not start on the quadric tangentially (0/0 in the code)'],
+         '[pquadric] guard of the theorems: direction not zero (sphere) / not parallel to the axis (cylinder), and the ray does not start on the quadric tangentially (0/0 in the code)',
+         '[pquadric] f32 build (thorough tier): stream C03quadric of the build with --features float against module Quadricf32 of Run/Quadric.v (the same runner text on the binary32 '
+         'instance NumF32fast = NumF32, Run/FastNum32Proof.v): bit for bit except downstream of libm (2^-20; sphere normals / dpdv 2^-12 outside the pole band; placement '
+         'matrices 2^-14; libm-dependent decisions when the margin exceeds 2^-12); CORRESPONDENCE ONLY: the C03 exact-rational oracle does not judge f32 cases'],
  'C13': ['[pquadric] sphere statements carry sin(theta) <> 0 (finding F8: the code divides by sin(theta) at the poles)',
-         '[pquadric] cylinder: the pre-get_side normal is the INWARD radial normal; Front = ray travelling outwards'],
+         '[pquadric] cylinder: the pre-get_side normal is the INWARD radial normal; Front = ray travelling outwards',
+         '[pquadric] f32 build (thorough tier): stream C13quadric of the build with --features float against module Quadricf32 of Run/Quadric.v (the same runner text on the binary32 '
+         'instance NumF32fast = NumF32, Run/FastNum32Proof.v): bit for bit except downstream of libm (2^-20; sphere normals / dpdv 2^-12 outside the pole band; placement '
+         'matrices 2^-14; libm-dependent decisions when the margin exceeds 2^-12); CORRESPONDENCE ONLY: the C13 exact-rational oracle does not judge f32 cases'],
 }
 THEOREMS = {
  'C02': ['C02_sphere_hit_is_true_hit', 'C02_cylinder_hit_is_true_hit', 'C02_sphere_hit_any_error_boxes_partial', 'C02_cylinder_hit_any_error_boxes_partial',
@@ -84,8 +90,8 @@ def streams(prop, tier):
     if tier == 'quick': return [Stream(name, 1500)]
     if tier == 'search': return [Stream(name, 8000)]
     out = [Stream(name, 16000), Stream(name, 6000, release=True)]
-    # the f32 build is in the quantifier of C02 only
-    if prop == 'C02': out.append(Stream(name, 1000, f32=True))
+    # the f32 build (thorough tier only): C02 with its calibrated f32 oracle; C03 / C13 correspondence only (oracle returns None)
+    out.append(Stream(name, 1000, f32=True))
     return out
 
 # ------------------------------------------------------------------ decoding
@@ -510,6 +516,8 @@ def oracle(prop, c, st):
     # 5 bounds / area, 7 intersection_info called on its own, 8 world_bounds / centre: model correspondence only
     # (6 = simple_intersect_local_ray reports a hit point: judged like op 1)
     if c['op'] > 4 and c['op'] != 6: return None
+    # f32 build: only the C02 oracle is calibrated for 24-bit rounding; C03 / C13 f32 cases are correspondence only
+    if prop != 'C02' and is_f32(c, st): return None
     set_precision(is_f32(c, st))
     try:
         if prop == 'C02': return oracle_c02(c)
